@@ -263,3 +263,43 @@ class ReachCounter:
 
     def never_hit(self):
         return sorted(set(self.names.values()) - self.hit)
+
+
+
+class CallCounter:
+    """Counts every entry (PY_START) into chosen functions: a measure of WORK in logical steps, for verdicts
+    about termination / complexity that must not depend on the clock."""
+
+    def __init__(self, functions):
+        self.functions = functions
+        self.calls = {}
+        self.codes = {}
+
+    def __enter__(self):
+        mon = sys.monitoring
+        mon.use_tool_id(TOOL_ID + 2, "verif-calls")
+
+        def _start(code, offset):  # pylint: disable=unused-argument
+            label = self.codes.get(code)
+            if label is not None:
+                self.calls[label] = self.calls.get(label, 0) + 1
+
+        mon.register_callback(TOOL_ID + 2, mon.events.PY_START, _start)
+        for label, func in self.functions.items():
+            code = getattr(func, "__code__", None)
+            if code is None:
+                continue
+            self.codes[code] = label
+            mon.set_local_events(TOOL_ID + 2, code, mon.events.PY_START)
+        return self
+
+    def __exit__(self, *exc):
+        mon = sys.monitoring
+        for code in self.codes:
+            try:
+                mon.set_local_events(TOOL_ID + 2, code, 0)
+            except ValueError:
+                pass
+        mon.register_callback(TOOL_ID + 2, mon.events.PY_START, None)
+        mon.free_tool_id(TOOL_ID + 2)
+        return False
